@@ -38,6 +38,13 @@ type Op struct {
 	CodeForm string `json:"code_form,omitempty"` // "" as issued | mangled | garbage
 	As       int    `json:"as,omitempty"`        // whose credentials: 0 = the client the code was issued to, k = Clients[(k-1) mod n]
 	Pres     string `json:"pres,omitempty"`      // "" registered method, right secret/key | wrong_secret | id_only (client_id form value, nothing else) | id_basic_empty (Basic header naming the client, empty password) | id_post_empty (client_id plus an empty client_secret parameter) | swap_method | bad_key | foreign_key (assertion naming the As client, its kid, signed with the registered key of ANOTHER private_key_jwt client: the one that last authenticated with an assertion in this history, else any other) | none | stored_basic | stored_post (private_key_jwt client for which the storage also holds a secret: that secret instead of an assertion)
+	// Assert: how an assertion that is signed with the As client's own registered key deviates from the one the honest client
+	// sends ("" not at all): a near miss of the issuer as audience, validity, subject, client_assertion_type, or a signature that
+	// only looks like one (cred_test.go). Applies wherever the presentation is the client's own assertion (Pres "", stored_*).
+	Assert string `json:"assert,omitempty"`
+	// SecretForm: how a presented right secret deviates from the registered one ("" not at all): nearSecret kinds; raw_basic =
+	// the right secret in a Basic header that is not form-encoded. Applies wherever the presentation carries the As client's secret.
+	SecretForm string `json:"secret_form,omitempty"`
 	BodyID   string `json:"body_id,omitempty"`   // extra client_id form value: "" | own (the As client) | owner (the code's client)
 	Redirect string `json:"redirect,omitempty"`  // "" the request's | other (another registered one) | caller (one of the As client) | missing | a near-miss derivation of the request's (nearKinds)
 	Ver      string `json:"ver,omitempty"`       // "" the request's verifier | wrong | missing | other (verifier of another request) | challenge (the challenge string itself)
@@ -64,13 +71,15 @@ type Case struct {
 	// which is how the library learns that an overlapping token request has already spent the code.
 	LaxDelete bool `json:"lax_delete,omitempty"`
 	Router        string            `json:"router"`
+	// Issuer: the provider's (static) issuer; "" = https://op.example.com. The routes stay where they are.
+	Issuer        string            `json:"issuer,omitempty"`
 	SignAlg       string            `json:"sign_alg"`
 	Clients       []vkit.ClientSpec `json:"clients"`
 	Ops           []Op              `json:"ops"`
 }
 
 const (
-	issuer    = "https://op.example.com"
+	defaultIssuer = "https://op.example.com"
 	sharedURI = "https://shared.example.com/cb"
 	sharedKID = "key1"
 	rsID      = "rs"
@@ -95,8 +104,14 @@ func genClient(t *rapid.T, i int, kind string) vkit.ClientSpec {
 	switch kind {
 	case "basic":
 		c.AppType, c.AuthMethod, c.Secret = "web", "client_secret_basic", "secret-of-"+id
+		if rapid.IntRange(0, 3).Draw(t, fmt.Sprintf("cl%d-specialsecret", i)) == 0 {
+			c.Secret = specialSecret(id)
+		}
 	case "post":
 		c.AppType, c.AuthMethod, c.Secret = "web", "client_secret_post", "secret-of-"+id
+		if rapid.IntRange(0, 3).Draw(t, fmt.Sprintf("cl%d-specialsecret", i)) == 0 {
+			c.Secret = specialSecret(id)
+		}
 	case "pkjwt":
 		c.AppType, c.AuthMethod = "web", "private_key_jwt"
 		// RS256 / ES256: what the OP accepts for client assertions. Every client has its own key; the key id is the client's
@@ -106,6 +121,9 @@ func genClient(t *rapid.T, i int, kind string) vkit.ClientSpec {
 		if rapid.Bool().Draw(t, fmt.Sprintf("cl%d-storedsecret", i)) {
 			// the storage also holds (and accepts) a secret for this client, e.g. left over from an earlier registration
 			c.Secret = "stored-secret-of-" + id
+			if rapid.IntRange(0, 3).Draw(t, fmt.Sprintf("cl%d-specialsecret", i)) == 0 {
+				c.Secret = specialSecret(id)
+			}
 		}
 	case "native":
 		c.AppType, c.AuthMethod = "native", "none"
@@ -291,8 +309,18 @@ func genExchange(t *rapid.T, nClients int, pk []int) Op {
 	if rapid.IntRange(0, 4).Draw(t, "faulted") == 0 {
 		o.Fault = genFault(t, exchangeFaultMethods, 9)
 	}
-	if rapid.IntRange(0, 3).Draw(t, "deviate") == 0 {
+	switch rapid.IntRange(0, 7).Draw(t, "deviate") {
+	case 0, 1:
 		return o // the honest redemption (or, on a spent code, the plain replay)
+	case 2:
+		// everything as the honest client sends it, except that the credential is a near miss of its own
+		// (whichever applies to the client that owns the code: the assertion of a private_key_jwt client, the secret of the others)
+		o.Assert = rapid.SampledFrom(assertChoices).Draw(t, "assert")
+		o.SecretForm = rapid.SampledFrom(secretKinds).Draw(t, "secretform")
+		if rapid.IntRange(0, 3).Draw(t, "near-secret-pres") == 0 {
+			o.Pres = rapid.SampledFrom([]string{"swap_method", "stored_basic", "stored_post"}).Draw(t, "pres")
+		}
+		return o
 	}
 	o.CodeForm = rapid.SampledFrom([]string{"", "", "", "", "", "", "", "", "", "", "", "mangled", "garbage"}).Draw(t, "codeform")
 	if rapid.IntRange(0, 2).Draw(t, "foreign") == 0 {
@@ -311,6 +339,15 @@ func genExchange(t *rapid.T, nClients int, pk []int) Op {
 	o.Redirect = rapid.SampledFrom(redirectChoices).Draw(t, "redirect")
 	o.Ver = rapid.SampledFrom([]string{"", "", "", "", "", "", "", "wrong", "missing", "missing", "other", "challenge"}).Draw(t, "ver")
 	o.Extra = rapid.IntRange(0, 3).Draw(t, "extra") == 0
+	switch rapid.IntRange(0, 9).Draw(t, "near-cred") {
+	case 0:
+		o.Assert = rapid.SampledFrom(assertChoices).Draw(t, "assert")
+		if rapid.IntRange(0, 3).Draw(t, "assert-keep-pres") > 0 {
+			o.Pres = ""
+		}
+	case 1:
+		o.SecretForm = rapid.SampledFrom(secretKinds).Draw(t, "secretform")
+	}
 	return o
 }
 
@@ -321,6 +358,7 @@ func genCase(t *rapid.T) Case {
 		c.ErrStyle = rapid.SampledFrom(vkit.ErrStyles).Draw(t, "errstyle")
 	}
 	c.EmptySecretOK = rapid.Bool().Draw(t, "empty-secret-ok")
+	c.Issuer = rapid.SampledFrom(issuerChoices).Draw(t, "issuer")
 	return c
 }
 
@@ -432,11 +470,11 @@ func clientKind(c *vkit.ClientSpec) string {
 
 // rightCred: what the honest holder of the client's credentials sends (a client of a method the OP does not implement: its
 // secret in the Basic header, the default of RFC 6749).
-func rightCred(c *vkit.ClientSpec) vkit.Cred {
+func (e *exec) rightCred(c *vkit.ClientSpec) vkit.Cred {
 	if oddMethod(c) {
 		return vkit.Cred{Kind: "basic", ClientID: c.ID, Secret: c.Secret}
 	}
-	return vkit.RightCred(c, issuer)
+	return vkit.RightCred(c, e.c.iss())
 }
 
 func (e *exec) fp(format string, a ...any) string {
@@ -570,17 +608,34 @@ func (e *exec) callback(o Op) {
 }
 
 // present builds the credential presentation and its wire description.
-func (e *exec) present(o Op, as, owner *vkit.ClientSpec) (vkit.Cred, wire) {
+// The third result: form values that replace what the credential would set (a client_assertion under another client_assertion_type).
+func (e *exec) present(o Op, as, owner *vkit.ClientSpec) (vkit.Cred, wire, url.Values) {
 	var cr vkit.Cred
+	issuer := e.c.iss()
 	signedWith := "" // pool key an assertion is signed with
 	signedKID := ""
+	var fg *forged // the assertion, when it was built from the client's own key with a deviation (Op.Assert)
+	var formExtra url.Values
 	assertion := func(valid bool) vkit.Cred {
 		now := time.Now()
 		// right issuer and kid (if the client has one) ...
 		signedKID = kidOf(as)
 		if valid {
 			signedWith = as.Keys[signedKID] // ("" for a client without keys: vkit sends the string "no-key")
-			return vkit.Cred{Kind: "assertion", Assertion: vkit.ClientAssertion(as, issuer, now)}
+			if signedWith == "" || o.Assert == "" {
+				return vkit.Cred{Kind: "assertion", Assertion: vkit.ClientAssertion(as, issuer, now)}
+			}
+			// ... signed with the client's own key, but deviating from what the honest client sends
+			f := forge(o.Assert, as, owner, e.c.Clients, issuer, signedKID, signedWith, now)
+			fg = &f
+			if f.typ != nil {
+				formExtra = url.Values{"client_assertion": {f.jwt}}
+				if *f.typ != "" {
+					formExtra.Set("client_assertion_type", *f.typ)
+				}
+				return vkit.Cred{Kind: "none"}
+			}
+			return vkit.Cred{Kind: "assertion", Assertion: f.jwt}
 		}
 		// ... signed with a key that is not registered for anybody
 		signedWith = "p384"
@@ -631,7 +686,7 @@ func (e *exec) present(o Op, as, owner *vkit.ClientSpec) (vkit.Cred, wire) {
 		if as.AuthMethod == "private_key_jwt" {
 			cr = assertion(true)
 		} else {
-			cr = rightCred(as)
+			cr = e.rightCred(as)
 		}
 	case "wrong_secret":
 		switch as.AuthMethod {
@@ -669,7 +724,7 @@ func (e *exec) present(o Op, as, owner *vkit.ClientSpec) (vkit.Cred, wire) {
 		// a private_key_jwt client presents the secret the storage holds for it (no assertion); every other client: its registered method
 		switch {
 		case as.AuthMethod != "private_key_jwt":
-			cr = rightCred(as)
+			cr = e.rightCred(as)
 		case as.Secret == "":
 			cr = assertion(true)
 		case o.Pres == "stored_basic":
@@ -685,10 +740,46 @@ func (e *exec) present(o Op, as, owner *vkit.ClientSpec) (vkit.Cred, wire) {
 		cr.BodyID = owner.ID
 	}
 	var w wire
+	if o.Assert != "" {
+		if fg != nil {
+			e.res.Label("assert:"+o.Assert, "assert-on-issuer:"+issuerShape(issuer))
+		} else {
+			e.res.Label("assert:not-applicable")
+		}
+	}
+	if o.SecretForm != "" {
+		if (cr.Kind == "basic" || cr.Kind == "post") && cr.ClientID == as.ID && cr.Secret != "" && cr.Secret == as.Secret {
+			e.res.Label("secret-near-miss:"+o.SecretForm, "secret-near-miss-via:"+cr.Kind)
+			if cr.Secret == specialSecret(as.ID) {
+				e.res.Label("secret-near-miss:of-a-secret-with-reserved-characters")
+			}
+			if o.SecretForm != "raw_basic" {
+				cr.Secret = nearSecret(o.SecretForm, cr.Secret, as, e.c.Clients)
+			} else if cr.Kind == "basic" {
+				// the right secret, not form-encoded: what a server that form-decodes (RFC 6749 2.3.1) reads is another string
+				// whenever the secret contains an escape sequence or a plus sign
+				cr.NoEscape = true
+				w.rawSec = cr.Secret
+			}
+		} else {
+			e.res.Label("secret-near-miss:not-applicable")
+		}
+	}
 	switch cr.Kind {
 	case "basic":
 		w.hasBasic, w.basicID, w.basicSec = true, cr.ClientID, cr.Secret
 		w.bodyID = cr.BodyID
+		if cr.NoEscape {
+			// the logical value: what form-decoding makes of the bytes sent
+			if d, err := url.QueryUnescape(cr.Secret); err == nil {
+				w.basicSec = d
+			} else {
+				w.basicSec = "\x00not-form-encoded"
+			}
+			if w.basicSec == cr.Secret {
+				w.rawSec = "" // nothing in it that decoding changes: the honest presentation
+			}
+		}
 	case "post":
 		w.bodyID, w.bodySec = cr.ClientID, cr.Secret
 		if cr.BodyID != "" {
@@ -705,8 +796,38 @@ func (e *exec) present(o Op, as, owner *vkit.ClientSpec) (vkit.Cred, wire) {
 		if cr.BodyID != "" {
 			w.bodyID = cr.BodyID
 		}
+		if fg != nil { // an assertion that travels under another client_assertion_type
+			w.hasAssertion, w.assertIss = true, as.ID
+			w.assertKey = signedKID + "/" + signedWith
+		}
 	}
-	return cr, w
+	if fg != nil {
+		// signed with the key registered for the named client under the named key id; what else is wrong with it:
+		// defect = a condition that makes it no credential for this provider, note = something the statement is silent about
+		w.assertKind, w.assertShow = o.Assert, fg.display
+		w.assertValid = w.assertValid && fg.signed && fg.defect == "" && fg.note == ""
+		if fg.signed && as.AuthMethod == "private_key_jwt" && as.Keys[signedKID] == signedWith {
+			w.assertDefect, w.assertNote = fg.defect, fg.note
+			w.assertOwnKey = true
+		}
+	}
+	return cr, w, formExtra
+}
+
+// issuerShape: label for the issuer of a case.
+func issuerShape(iss string) string {
+	_, authority, path := splitIssuer(iss)
+	s := "no-path"
+	if strings.TrimSuffix(path, "/") != "" {
+		s = "path"
+	}
+	if strings.HasSuffix(path, "/") {
+		s += "+trailing-slash"
+	}
+	if strings.Contains(authority, ":") {
+		s += "+port"
+	}
+	return s
 }
 
 // kidOf: the key id a client's assertions carry (vkit.ClientAssertion: the first in order), "k-<id>" for a client without keys.
@@ -792,7 +913,8 @@ func (e *exec) build(o Op, mc *mCode, codeStr string) built {
 		owner = as
 	}
 	b.owner, b.as = owner, as
-	b.cred, b.w = e.present(o, as, owner)
+	var formExtra url.Values
+	b.cred, b.w, formExtra = e.present(o, as, owner)
 	b.a.w = b.w
 	a := &b.a
 
@@ -861,6 +983,9 @@ func (e *exec) build(o Op, mc *mCode, codeStr string) built {
 		b.form.Set("scope", "openid admin")
 		b.form.Set("state", "state-from-token-request")
 		b.form.Set("sub", "u3")
+	}
+	for k, v := range formExtra {
+		b.form[k] = v
 	}
 	return b
 }
@@ -1061,7 +1186,7 @@ func (e *exec) checkTokens(desc string, resp *vkit.Resp, rq *mReq, owner *vkit.C
 	} else if pl, err := verifyJWS(e.c.SignAlg, e.signKey, idt); err != nil {
 		bad("id_token", "signature", "%v", err)
 	} else {
-		if pl["iss"] != issuer {
+		if pl["iss"] != e.c.iss() {
 			bad("id_token", "iss", "%v", pl["iss"])
 		}
 		if pl["sub"] != rq.user {
@@ -1173,7 +1298,9 @@ func run(c Case) (res *vkit.Result) {
 	e.signKey = vkit.Key(signKeys[c.SignAlg])
 	// every token also names the resource server "rs" as audience, which lets it introspect tokens of public clients too
 	e.st = vkit.NewStore(regs, vkit.SignKeySpec{KeyName: signKeys[c.SignAlg], Alg: c.SignAlg, KID: "sig1"}, vkit.StorePolicy{ExtraAudience: []string{rsID}, ErrStyle: c.ErrStyle, EmptySecretOK: c.EmptySecretOK, LaxDelete: c.LaxDelete})
-	e.sut = vkit.MustBuild(vkit.DefaultProviderSpec(c.Router), e.st)
+	spec := vkit.DefaultProviderSpec(c.Router)
+	spec.Issuer = c.iss()
+	e.sut = vkit.MustBuild(spec, e.st)
 	e.ag = vkit.NewAgent(e.sut)
 
 	for i, o := range c.Ops {
@@ -1194,6 +1321,7 @@ func run(c Case) (res *vkit.Result) {
 		}
 	}
 
+	res.Label("issuer:"+issuerShape(c.iss()))
 	res.Label("router:"+c.Router, "store:empty-secret-ok="+fmt.Sprint(c.EmptySecretOK), "store:lax-delete="+fmt.Sprint(c.LaxDelete))
 	res.Grey = e.asserted == 0 // nothing but grey exchanges (or none at all): only "no code before login" was asserted
 	res.NonTrivial = e.accepted > 0 && e.refusedNonTriv > 0
@@ -1243,11 +1371,13 @@ func run(c Case) (res *vkit.Result) {
 
 var prop = vkit.Prop[Case]{
 	ID: "C04",
-	Rule: "cases = router (provider | legacy) x storage secret comparison (diligent: a client without a secret never matches | plain string equality: a client that holds no secret matches an empty presented one, as example/server/storage does) x id-token alg x 3-5 registered clients (client_secret_basic, client_secret_post, private_key_jwt - half of them with a secret the storage also holds; each with its own key, whose key id is either the client's own or one that several clients use for their different keys -, public native / user-agent, confidential clients whose registered token endpoint auth method is none of the four the OP implements: never set (empty) / client_secret_jwt / tls_client_auth / self_signed_tls_client_auth / CLIENT_SECRET_BASIC / basic / a made-up one, 5 of 6 with a secret; a redirect URI shared on purpose, some registered URIs with a query, an empty path, a trailing slash or a port; opaque or JWT access tokens) " +
+	Rule: "cases = router (provider | legacy) x static issuer (https://op.example.com in half of the cases | with a trailing slash | with a path | path and trailing slash | explicit port | two path segments; the routes stay) x storage secret comparison (diligent: a client without a secret never matches | plain string equality: a client that holds no secret matches an empty presented one, as example/server/storage does) x id-token alg x 3-5 registered clients (client_secret_basic, client_secret_post, private_key_jwt - half of them with a secret the storage also holds; every fourth secret with characters that the Basic scheme form-encodes (percent sequence, plus, space, colon, slash, ampersand); each with its own key, whose key id is either the client's own or one that several clients use for their different keys -, public native / user-agent, confidential clients whose registered token endpoint auth method is none of the four the OP implements: never set (empty) / client_secret_jwt / tls_client_auth / self_signed_tls_client_auth / CLIENT_SECRET_BASIC / basic / a made-up one, 5 of 6 with a secret; a redirect URI shared on purpose, some registered URIs with a query, an empty path, a trailing slash or a port; opaque or JWT access tokens) " +
 		"x history of 3-40 ops: authorize(client, registered uri, pkce none|plain|plain-without-method|S256, verifier from a pool of 4, scopes, nonce), login(req, user), callback(req), " +
-		"exchange(code incl. replays / mangled / garbage, as owner or another client, presentation right|wrong secret|nothing proved, for every client kind: client_id form value only / Basic header naming the client with an empty password / client_id plus an empty client_secret parameter (a confidential client - secret or private_key_jwt - named that way must never be served, whatever the storage makes of an empty secret; a public client identifies that way)|other method|assertion with unregistered key|assertion naming the client and its key id but signed with the registered key of another private_key_jwt client (preferably one with the same key id that authenticated earlier in the history)|none|stored secret of a private_key_jwt client via Basic / POST instead of an assertion, extra body client_id, " +
+		"exchange(code incl. replays / mangled / garbage, as owner or another client, presentation right|wrong secret|nothing proved, for every client kind: client_id form value only / Basic header naming the client with an empty password / client_id plus an empty client_secret parameter (a confidential client - secret or private_key_jwt - named that way must never be served, whatever the storage makes of an empty secret; a public client identifies that way)|other method|assertion with unregistered key|assertion naming the client and its key id but signed with the registered key of another private_key_jwt client (preferably one with the same key id that authenticated earlier in the history)|none|stored secret of a private_key_jwt client via Basic / POST instead of an assertion, extra body client_id; " +
+		"near-miss credentials (every 8th exchange has nothing else wrong, others combine them with the deviations above): Assert = the assertion of a private_key_jwt client, signed with its own registered key, iss = the client, deviating in ONE respect: audience (the issuer string continued: host suffix .evil.net/ / word suffix / userinfo trick @evil.net/ / path extension that is no endpoint; a strict prefix of the issuer: last character / last path segment or host label dropped; trailing slash toggled; host or everything upper-cased; default port added or the issuer's port dropped; http; the token endpoint URL; the client's own id; no aud; empty list; three audiences none of which is the issuer; one string that is a near miss; and two accepted shapes: a list that contains the issuer among others, a single string), validity (expired, no exp; iat 10 min ahead / 2 h old / missing), subject (another client - the code's owner when the assertion is by somebody else -, a user, missing), client_assertion_type (saml2-bearer, missing, upper-cased), signature (alg none, HS256 keyed with the public key, signature of another payload); " +
+		"SecretForm = the right secret of a secret-holding client (also the stored secret of a private_key_jwt client, the secret of a client of an unimplemented method) with a trailing / leading space, truncated, extended, upper-cased, replaced by another client's secret, form-decoded once more, form-encoded once more, or sent in a Basic header that is not form-encoded; " +
 		"redirect same|other registered|caller's|missing|12 near-miss derivations of the request's URI (added query / fragment / userinfo / default port / extra or .. segment, trailing slash toggled, host or scheme upper-cased, percent-encoded path letter, query reordered / dropped; all must be refused), verifier right|wrong|missing|of another request|the challenge itself, extra nonce/scope parameters; about every 5th exchange and some callbacks with ONE storage fault in that very request: every call of a method on the path or the k-th storage call, kind error|deadline|partial (effect happens, error reported)|oidc|oidc-wrapped); " +
-		"oracle = code state machine written from the statement, two-sided; a client of an unimplemented auth method is confidential: whoever presents neither its non-empty secret nor another credential of it is refused, with its right secret (Basic or form) the exchange is grey (the statement does not say how such a client authenticates), as it is when the client holds no secret and the storage accepts an empty one; grey (asserts nothing on accept/refuse, still checks claims of issued tokens): mixed identity or non-registered method (incl. a private_key_jwt client presenting the secret its storage accepts: a genuine credential of that very client, whether the method may be used is property C05's subject; redeeming another client's code that way is must-reject), verifier without challenge, " +
+		"oracle = code state machine written from the statement, two-sided; an assertion authenticates its issuer iff it is signed with the key registered for that client under its key id, names the issuer of the provider as an audience (string equality) and is not expired (model of the audience: +1 some audience equals the issuer; grey when an audience is another RFC 3986 spelling of the issuer URL - case of scheme / host, default port, empty path vs / - or the URL of one of the provider's own endpoints; otherwise the assertion was made for somebody else: must-reject bad-assertion:audience); iat, sub != iss and the client_assertion_type are policies the statement does not name: grey when everything else is right (the identity an assertion can prove is its iss: iss = another client, sub = the owner is a foreign client); every near miss of a secret is not the secret: must-reject; the right secret in a Basic header that is not form-encoded, where decoding changes it: grey; a client of an unimplemented auth method is confidential: whoever presents neither its non-empty secret nor another credential of it is refused, with its right secret (Basic or form) the exchange is grey (the statement does not say how such a client authenticates), as it is when the client holds no secret and the storage accepts an empty one; grey (asserts nothing on accept/refuse, still checks claims of issued tokens): mixed identity or non-registered method (incl. a private_key_jwt client presenting the secret its storage accepts: a genuine credential of that very client, whether the method may be used is property C05's subject; redeeming another client's code that way is must-reject), verifier without challenge, " +
 		"a second code of a request whose other code was exchanged; an otherwise valid exchange in which a storage fault fired (may fail: C10's subject) and, after such a request answered without tokens, later otherwise valid exchanges of that request's codes (the storage may or may not have dropped it) - " +
 		"what stays asserted under faults: a must-reject yields no tokens, and a code that yielded tokens (faulted request or not) never does again; non-trivial = the history contains an exchange that yields tokens and one the model refuses for a reason other than an unknown code; " +
 		"distinct = (router, set of owner-kind/pkce of successful exchanges, set of refusal-reason combinations per owner kind, set of faulted-method:outcome of otherwise valid exchanges)",
